@@ -163,7 +163,7 @@ func (f *Frame) exec(ins ssa.Instruction) {
 func (m *Machine) load(p *PtrV, g *Term, site ssa.Instruction) Value {
 	m.noPanic(g, isNilPtr(p), "nil pointer dereference (load)", site)
 	if m.lockWatch != nil {
-		m.lockWatch.access(m, p, g, site)
+		m.lockWatch.access(m, p, g, site, false)
 	}
 	var res Value
 	for i := len(p.Alts) - 1; i >= 0; i-- {
@@ -184,7 +184,7 @@ func (m *Machine) load(p *PtrV, g *Term, site ssa.Instruction) Value {
 func (m *Machine) store(p *PtrV, v Value, g *Term, site ssa.Instruction) {
 	m.noPanic(g, isNilPtr(p), "nil pointer dereference (store)", site)
 	if m.lockWatch != nil {
-		m.lockWatch.access(m, p, g, site)
+		m.lockWatch.access(m, p, g, site, true)
 	}
 	for _, a := range p.Alts {
 		c := And(g, a.G)
